@@ -176,8 +176,14 @@ func (p *printer) expr(n *Node, nl bool) string {
 		pr := prec(n)
 		l := p.sub(n.A[0], pr, nl)
 		r := p.sub(n.A[1], pr+1, nl)
-		if n.Op == "/" || !p.noisy {
+		switch {
+		case n.Op == "/" || n.Op == "%" || !p.noisy:
+			// "/" next to a comment or another "/" would start a comment
 			return l + p.gap(nl) + n.Op + p.gap(nl) + r
+		case n.Op == "-":
+			// identifiers may contain "-": "a-1" is one identifier, so the blank before a
+			// binary minus is significant
+			return l + p.gap(nl) + n.Op + p.sp(nl) + r
 		}
 		return l + p.sp(nl) + n.Op + p.sp(nl) + r
 	case NCond:
@@ -277,7 +283,14 @@ func (p *printer) object(n *Node) string {
 		case KeyIdent:
 			sb.WriteString(it.Name)
 		case KeyQuoted:
-			sb.WriteString(p.template(it.Key)) // never wrapped in parentheses
+			switch {
+			case it.Key.K == NStr:
+				sb.WriteString(`"` + quoteLit(it.Key.S) + `"`)
+			case it.Key.K == NTemplate && it.Key.Form == TQuoted:
+				sb.WriteString(p.template(it.Key))
+			default: // (after shrinking / fault injection) any other key expression
+				sb.WriteString("(" + p.expr(it.Key, true) + ")")
+			}
 		default:
 			sb.WriteString("(" + p.sp(true) + p.expr(it.Key, true) + p.sp(true) + ")")
 		}
